@@ -58,6 +58,12 @@ func nameFromKind(kind an.BasicKind) string {
 // typeID returns an identifier for `ty`
 // usable in function names
 func typeID(ty an.Type) string {
+	return typeIDRec(ty, make(map[*an.Named]bool))
+}
+
+// visiting contains the named types being expanded: a named container
+// refering to itself (like type Tree map[string]Tree) has no finite identifier
+func typeIDRec(ty an.Type, visiting map[*an.Named]bool) string {
 	switch ty := ty.(type) {
 	case *an.Pointer:
 		panic("pointers not handled by the SQL generator")
@@ -70,11 +76,16 @@ func typeID(ty an.Type) string {
 		if ty.Len >= 0 {
 			as += fmt.Sprintf("%d_", ty.Len)
 		}
-		return as + typeID(ty.Elem)
+		return as + typeIDRec(ty.Elem, visiting)
 	case *an.Map:
-		return "map_" + typeID(ty.Elem) // JSON map keys are always strings
+		return "map_" + typeIDRec(ty.Elem, visiting) // JSON map keys are always strings
 	case *an.Named: // shortcut to underlying
-		return typeID(ty.Underlying)
+		if visiting[ty] {
+			panic(fmt.Sprintf("recursive type %s is not supported by the SQL generator", ty.Type()))
+		}
+		visiting[ty] = true
+		defer delete(visiting, ty)
+		return typeIDRec(ty.Underlying, visiting)
 	case *an.Struct, *an.Enum, *an.Union: // these types are always named
 		return idFromNamed(ty.Type().(*types.Named))
 	default:
